@@ -156,7 +156,7 @@ def c15_c(ctx):
               'the initial distinct count is not len(seen)', fn=f, node=pre[0] if pre else lo)
     rr = returns(f)
     ok = len(rr) == 1 and dname is not None and \
-        ex.raw(rr[0].value) == ('sub', ('name', dname), ('const', -1))
+        ex.raw1(rr[0].value) == ('sub', ('name', dname), ('const', -1))
     ctx.check(ok, f, 'last draw returned', 'sub_seeds[-1]',
               'the returned value is `{}` - not the last draw of the last round'.format(
                   src(rr[0].value) if rr else None), fn=f, node=rr[0] if rr else f.node)
